@@ -36,6 +36,13 @@ def draw(model: g.Model):
 _MAX_PATTERN_LEN = 16
 
 
+
+def _param(value) -> str:
+    # NOTE: a track is one display line: a parameter with a line break or
+    #   another control character is shown as its repr()
+    text = str(value)
+    return repr(value) if isinstance(value, str) and not text.isprintable() else text
+
 class RailroadNodeWalker(NodeWalker):
     def __init__(self):
         super().__init__()
@@ -59,11 +66,11 @@ class RailroadNodeWalker(NodeWalker):
 
         params = ''
         if rule.params:
-            params = ','.join(str(p) for p in rule.params)
+            params = ','.join(_param(p) for p in rule.params)
 
         kwparams = ''
         if rule.kwparams:
-            kwparams = ','.join(f'{k}={v}' for k, v in rule.kwparams.items())  # type: ignore
+            kwparams = ','.join(f'{k}={_param(v)}' for k, v in rule.kwparams.items())  # type: ignore
 
         if params and kwparams:
             params = f'{params}, {kwparams}'
